@@ -359,6 +359,30 @@ class Gen(object):
         ex = list(v.rps)
         if not ex:
             return self.g_rp_create(v)
+        # directed shape (15 %): a reshape that is rejected LATE - it drops a class some consumer outside the request
+        # still holds (InventoryInUse at the final inventory replacement, after the allocations were written) while creating
+        # a new consumer whose own allocations are fine
+        held = sorted({(rp, rc) for c_, lst_ in v.by_consumer.items() for (rp, rc, n_) in lst_})
+        fresh = [c_ for c_ in CONSUMERS if c_ not in v.consumers]
+        if held and fresh and rng.random() < 0.15:
+            p_, k_ = rng.choice(held)
+            keep = [(k[1], i) for k, i in v.invs.items() if k[0] == p_ and k[1] != k_]
+            lst = [inv(rc, i['total'], reserved=i['reserved'], min_unit=i['min_unit'], max_unit=i['max_unit'],
+                       step_size=i['step_size'], ratio=i['ratio']) for rc, i in keep]
+            elsewhere = [k for k in v.invs if k[0] != p_ or k[1] != k_]
+            allocs = []
+            if elsewhere:
+                kk = rng.choice(elsewhere)
+                allocs = [[kk[0], kk[1], max(1, self.amount_for(v, kk, fresh[0], share=3))]]
+            invs_ = [{'uuid': p_, 'gen': v.rps[p_]['gen'], 'invs': lst}]
+            if allocs and allocs[0][0] != p_:
+                u2 = allocs[0][0]
+                cur2 = [inv(k[1], i['total'], reserved=i['reserved'], min_unit=i['min_unit'], max_unit=i['max_unit'],
+                            step_size=i['step_size'], ratio=i['ratio']) for k, i in v.invs.items() if k[0] == u2]
+                invs_.append({'uuid': u2, 'gen': v.rps[u2]['gen'], 'invs': cur2})
+            return {'op': 'reshape', 'mv': mv, 'invs': invs_,
+                    'cs': [{'uuid': fresh[0], 'project': rng.choice(PROJECTS), 'user': rng.choice(USERS),
+                            'ctype': rng.choice(CTYPES) if mv >= 38 else None, 'gen': None, 'allocs': allocs}]}
         rps = rng.sample(ex, min(len(ex), rng.choice([1, 2, 2])))
         invs = []
         new_keys = []
